@@ -318,10 +318,15 @@ def run(case, ctx):
             for rel in [r for r in st_["user"] if r in want]:
                 # a user file named like a file this flavour generates is the generator's from now on
                 del st_["user"][rel]
-            for rel, data in st_["user"].items():
+            for rel, data in list(st_["user"].items()):
                 if got.get(rel) != data:
                     ctx.violation("overwrite.user_files_untouched", {**site, "where": "package" if os.sep in rel and not rel.startswith("user_contrib") else "project"},
                                   f"{rel}: {got.get(rel)!r}")
+                    # reported once, at the step that did it: later steps are judged against what is there now
+                    if got.get(rel) is None:
+                        del st_["user"][rel]
+                        continue
+                    st_["user"][rel] = got[rel]
                 got.pop(rel, None)
                 d = os.path.dirname(rel)
                 while d:
